@@ -114,6 +114,28 @@ def delimiter_rule(ctx, rule, repo, dv):
 
 
 # ------------------------------------------------------------------------------ rule 4
+def encoder_skip_set(enc, fo):
+    """The set of message tags for which the per-tag emitter is NOT called in the encoder's loop over the message's tags: read from
+    the guards of that call (`if t in S: continue` in front of it, or `if t not in S:` around it).  None when not found."""
+    skip = None
+    eg = CFG(enc)
+    for nd in eg.nodes:
+        if nd.kind != "stmt" or nd.ast is None or not any(isinstance(c, ast.Call) and unparse(c.func).endswith("_addTag") for c in walk_no_nested(nd.ast)):
+            continue
+        for t_, lab in eg.guards(nd.id, exc=False):
+            for cmp_ in ast.walk(t_):
+                if isinstance(cmp_, ast.Compare) and len(cmp_.ops) == 1 and isinstance(cmp_.ops[0], (ast.In, ast.NotIn)):
+                    coll = cmp_.comparators[0]
+                    if isinstance(coll, ast.Call) and coll.args and unparse(coll.func) in ("frozenset", "set", "tuple"):
+                        coll = coll.args[0]
+                    if not isinstance(coll, (ast.Set, ast.Tuple, ast.List)):
+                        continue
+                    excluded_when_true = isinstance(cmp_.ops[0], ast.In)
+                    if (excluded_when_true and lab == "false" and cmp_ is t_) or (not excluded_when_true and lab == "true" and cmp_ is t_):
+                        skip = {fo.tag(e) for e in coll.elts}
+    return skip
+
+
 def emitted_fields(enc, fo):
     """`X.append('%s=%s' % (FTag.T, expr))` statements of the encoder: [(tag str, expr, call)]"""
     out = []
@@ -125,6 +147,15 @@ def emitted_fields(enc, fo):
                 t = fo.tag(a.right.elts[0])
                 if t is not None:
                     out.append((t, a.right.elts[1], c, unparse(c.func.value)))
+    # the same fields written as elements of a list display `X = ['%s=%s' % (FTag.T, expr), ...]` (in display order)
+    for st in walk_no_nested(enc):
+        if isinstance(st, ast.Assign) and len(st.targets) == 1 and isinstance(st.targets[0], ast.Name) and isinstance(st.value, ast.List):
+            for a in st.value.elts:
+                if isinstance(a, ast.BinOp) and isinstance(a.op, ast.Mod) and isinstance(a.right, ast.Tuple) and len(a.right.elts) == 2 \
+                        and isinstance(a.left, ast.Constant) and re.fullmatch(r"%s=%[\w.]+", str(a.left.value)):
+                    t = fo.tag(a.right.elts[0])
+                    if t is not None:
+                        out.append((t, a.right.elts[1], a, st.targets[0].id))
     return out
 
 
@@ -238,12 +269,7 @@ def header_rule(ctx, rule, repo, res, fo):
     if n_sites == 0:
         raise AnalysisError("no call site of validate_comp_ids found")
     # skipped set == tags emitted in the body prefix
-    skip = None
-    for n in walk_no_nested(enc):
-        if isinstance(n, ast.Compare) and len(n.ops) == 1 and isinstance(n.ops[0], ast.In) and isinstance(n.comparators[0], (ast.Set, ast.Tuple, ast.List)):
-            p = getattr(n, "_parent", None)
-            if isinstance(p, ast.If) and any(isinstance(s, ast.Continue) for s in p.body):
-                skip = {fo.tag(e) for e in n.comparators[0].elts}
+    skip = encoder_skip_set(enc, fo)
     body_list = None
     for t, e, c, lst in em:
         if t == "34":
